@@ -13,19 +13,20 @@ from harness.gen import mc as gen_mc
 from harness.pyx import drift
 
 ID = "C06"
-LEAN_TARGETS = ["ChmpyVerif.Props.C06"]
+LEAN_TARGETS = ["ChmpyVerif.Props.C06", "ChmpyVerif.Props.C06Glue2"]
 T = "ChmpyVerif.Props.C06."
 THEOREMS = [T + n for n in (["leaves_ok%d" % i for i in range(8)] + ["faces_match%d" % i for i in range(8)] + ["trees%d" % i for i in range(8)]
                             + ["every_leaf_ok", "every_leaf_faces_match", "same_face_data_same_segments", "opposite_faces_glue", "two_cells_glue", "expected_keys_distinct",
-                               "vertex_inside_edge", "vertex_at_crossing", "slot_nf", "gridEdge_nf", "slot_eq_iff_same_edge"])]
+                               "vertex_inside_edge", "vertex_at_crossing", "slot_nf", "gridEdge_nf", "slot_eq_iff_same_edge", "mesh_closed"])]
 TRUSTED = [
     "translator harness/gen/mc.py: decodes the base64 lookup tables, parses the_big_switch / the reference-edge chain of test_internal from the .pyx "
     "with Python's ast (after dropping the Cython declarations) and executes the switch symbolically for all 256 configurations -> 766 leaves; the "
     "translator's own face table is re-checked leaf by leaf in Lean",
     "hand model Model/MC.lean of test_face, test_internal, cell.index, vertex interpolation and the face-layer slot — tied by single-cell and "
     "multi-cell correspondence with the compiled kernel (triangle sequences compared exactly, vertex parameters to 1e-6)",
-    "NOT proved: the assembly of cells into one mesh (that per-cell manifoldness + face determinism + opposite-face reversal + vertex sharing imply a "
-    "closed oriented 2-manifold), that the 'Impossible case 13' branches are unreachable, exact-zero corner values (index uses > 0), volume convergence, "
+    "the assembly argument itself is proved abstractly (mesh_closed: local nodup + interior-or-face + gluing across faces + 'two cells sharing a "
+    "directed edge share its face' => every directed edge and its reverse occur exactly once); NOT proved is that the concrete grid satisfies the "
+    "geometric hypothesis (two distinct grid edges common to two cells span a common face) and that neighbouring leaves see consistent face data, that the 'Impossible case 13' branches are unreachable, exact-zero corner values (index uses > 0), volume convergence, "
     "and everything about the density grids of surface.py — all exercised by the oracle on the real code",
     "the prebuilt _mc_lewiner extension is a faithful compilation of the .pyx reconstructed from its .c (drift guard)",
 ]
@@ -292,6 +293,24 @@ def judge_field(seed):
     return None, len(F)
 
 
+def judge_quantised(seed):
+    """fields whose grid values hit the level EXACTLY (values rounded to multiples of 1/8, level 0.25 or 0.5)"""
+    from chmpy.mc import marching_cubes
+    nrng = np.random.default_rng(seed)
+    shape = tuple(int(nrng.integers(8, 16)) for _ in range(3))
+    q = (np.round(blob_field(nrng, shape, (1.0, 1.0, 1.0)) * 8) / 8).astype(np.float32)
+    for level in (0.25, 0.5):
+        b = max(q[0].max(), q[-1].max(), q[:, 0].max(), q[:, -1].max(), q[:, :, 0].max(), q[:, :, -1].max())
+        if b >= level or q.max() <= level or not np.any(q == level):
+            continue
+        V, F, _, _ = marching_cubes(q, level)
+        bad = mesh_topology(np.asarray(F).tolist())
+        if bad:
+            return (f"quantised field seed={seed} shape={shape} level={level} ({int((q == level).sum())} grid values equal the level exactly): "
+                    f"mesh is not closed, {len(bad)} directed edges unpaired")
+    return None
+
+
 def judge_convergence(seed):
     from chmpy.mc import marching_cubes
     nrng = np.random.default_rng(seed)
@@ -374,6 +393,19 @@ def judge_wrappers(seed):
     for a in np.array(p):
         if abs(abs(winding_number(V, F, a)) - 1) > 1e-3:
             return f"Molecule.promolecule_density_isosurface: atom {a.tolist()} not enclosed"
+    # the wrapper honours the requested isovalue: vertices sit on THAT level of the promolecule density
+    from chmpy import PromoleculeDensity
+    pro = PromoleculeDensity((np.array(n), np.array(p)))
+    for iso in (0.01, 0.0005):
+        try:
+            mesh = m.promolecule_density_isosurface(separation=0.3, isovalue=iso)
+        except Exception as ex:  # noqa
+            return f"Molecule.promolecule_density_isosurface(isovalue={iso}) raised {type(ex).__name__}: {ex}"
+        rv = pro.rho(np.asarray(mesh.vertices, dtype=np.float32))
+        med = float(np.median(rv) / iso)
+        if not 0.6 < med < 1.6:
+            return (f"Molecule.promolecule_density_isosurface(isovalue={iso}, separation=0.3): the median density at the vertices is {med:.3g} times "
+                    f"the requested isovalue — the surface is not the requested level")
     path = os.path.join(os.path.dirname(__import__("chmpy").__file__), "tests", "test_files", "acetic_acid.cif")
     c = Crystal.load(path)
     try:
@@ -403,6 +435,9 @@ def plan(ctx, budget):
         yield ("field", rng.randrange(1 << 30))
     for _ in range(2 if budget == "quick" else 10):
         yield ("convergence", rng.randrange(1 << 30))
+    yield ("quantised", 15)            # the listed finding's own input
+    for _ in range(12 if budget == "quick" else 150):
+        yield ("quantised", rng.randrange(1 << 30))
     for name in (("water", "acetic", "rod") if budget == "quick" else tuple(MOLS) * 3):
         yield ("promolecule:" + name, rng.randrange(1 << 30))
     yield ("wrappers", 0)
@@ -414,6 +449,8 @@ def run_case(c):
         return judge_field(seed)
     if kind == "convergence":
         return judge_convergence(seed), 100
+    if kind == "quantised":
+        return judge_quantised(seed), 100
     if kind.startswith("promolecule:"):
         return judge_promolecule(kind.split(":")[1], seed), 100
     return judge_wrappers(seed), 100
@@ -432,7 +469,8 @@ def search(ctx, budget):
             continue
         ctx.case({"case": list(c)}, nontrivial=nfaces > 20)
         if r:
-            ctx.fail(f"C06:{c[0]}:" + r.split(":", 1)[1][:50].strip(), r, {"case": list(c)})
+            key = "C06:grid-value-equals-level" if c[0] == "quantised" else f"C06:{c[0]}:" + r.split(":", 1)[1][:50].strip()
+            ctx.fail(key, r, {"case": list(c)})
             if len(ctx.failures) >= 8:
                 break
     ctx.note("fields_outside_quantifier_skipped", skipped)
